@@ -324,7 +324,7 @@ fn nest_compressed(inner: Vec<u8>, depth: usize, alg: u8) -> Vec<u8> {
 
 fn hostile_inner(t: &mut Tape, rec: &mut Rec) -> Vec<u8> {
     let lit = wire::new_packet(11, &wire::literal_body(b'b', b"", 0, b"payload"));
-    match t.below(12) {
+    match t.below(13) {
         0 => {
             let d = *t.pick(&[1usize, 10, 31, 32, 33, 100, 1000, 4000]);
             rec.label(format!("inner:compressed-nest-{d}"));
@@ -406,6 +406,18 @@ fn hostile_inner(t: &mut Tape, rec: &mut Rec) -> Vec<u8> {
             rec.label("inner:empty");
             vec![]
         }
+        11 => {
+            rec.label("inner:literal-then-skippable-packets");
+            let mut v = if t.bool() { lit.clone() } else { wire::partial_packet(11, &wire::literal_body(b'b', b"", 0, &expand(t.u64(), 700)), &[9], 1).unwrap_or_default() };
+            for _ in 0..t.range(1, 4) {
+                match t.below(3) {
+                    0 => v.extend_from_slice(&wire::new_packet(21, &expand(t.u64(), t.range(0, 40)))),
+                    1 => v.extend_from_slice(&wire::new_packet(10, b"PGP")),
+                    _ => v.extend_from_slice(&wire::new_packet(62, &expand(t.u64(), t.range(0, 10)))),
+                }
+            }
+            v
+        }
         _ => {
             rec.label("inner:random-bytes");
             let n = t.range(0, 200);
@@ -473,11 +485,109 @@ fn hostile_container_case(t: &mut Tape, rec: &mut Rec) -> CaseResult {
     } else {
         msg
     };
+    // the container re-framed with partial body lengths, followed by skippable packets, cut anywhere
+    let msg = if t.chance(100) {
+        match wire::split_packets(&msg) {
+            Ok(ps) if !ps.is_empty() => {
+                let mut v = vec![];
+                let last = ps.len() - 1;
+                for (i, p) in ps.iter().enumerate() {
+                    if i == last && p.body.len() >= 520 && t.chance(200) {
+                        let mut exps = vec![9u8];
+                        let mut used = 512;
+                        while used + 64 < p.body.len() && exps.len() < 6 && t.bool() {
+                            let e = *t.pick(&[0u8, 3, 6, 9]);
+                            if used + (1usize << e) >= p.body.len() {
+                                break;
+                            }
+                            used += 1usize << e;
+                            exps.push(e);
+                        }
+                        v.extend_from_slice(&wire::partial_packet(p.tag, &p.body, &exps, *t.pick(&[1u8, 2, 5])).unwrap_or_else(|| wire::new_packet(p.tag, &p.body)));
+                        rec.label("outer:partial-framing");
+                    } else {
+                        v.extend_from_slice(&wire::new_packet(p.tag, &p.body));
+                    }
+                }
+                for _ in 0..t.below(3) {
+                    v.extend_from_slice(&wire::new_packet(*t.pick(&[21u8, 10, 62]), &expand(t.u64(), t.range(0, 20))));
+                    rec.label("outer:trailing-skippable-packets");
+                }
+                if t.chance(200) {
+                    let cut = t.below(v.len() + 1);
+                    v.truncate(cut);
+                    rec.label("outer:truncated");
+                }
+                v
+            }
+            _ => msg,
+        }
+    } else {
+        msg
+    };
     for (kind, keylen) in [(0, 16usize), (1, 32), (2, 24)] {
         let _ = kind;
         rec.checkpoint("hostile-container:open");
         open_message(rec, &msg, Some(&sk[..keylen]), &[Kind::Ed25519V6], t);
     }
+    Ok(())
+}
+
+
+// ---------------------------------------------------------------------------------------------
+// (1b') partial-body framed containers with skippable packets inside / after, cut at every offset
+// ---------------------------------------------------------------------------------------------
+
+fn truncation_bases() -> Vec<(String, Vec<u8>, Vec<u8>)> {
+    let sk = expand(0x7_C04, 32);
+    let mut v = vec![];
+    for inner_kind in 0..3 {
+        let lit_body = wire::literal_body(b'b', b"", 0, &expand(0x11_C04, 700));
+        let mut inner = match inner_kind {
+            0 => wire::new_packet(11, &lit_body),
+            _ => wire::partial_packet(11, &lit_body, &[9, 6], 1).unwrap_or_default(),
+        };
+        if inner_kind == 2 {
+            inner.extend_from_slice(&wire::new_packet(21, &[0u8; 9]));
+            inner.extend_from_slice(&wire::new_packet(10, b"PGP"));
+        }
+        for container in 0..3 {
+            let (tag, body) = match container {
+                0 => (18u8, rc::seipdv1_encrypt(7, &sk[..16], &expand(0x12_C04, 16), &inner)),
+                1 => (18u8, rc::seipdv2_encrypt(7, 2, 0, &[5; 32], &sk[..16], &inner).unwrap_or_default()),
+                _ => (20u8, rc::gnupg_aead_encrypt(7, 2, 1, &expand(0x13_C04, 15), &sk[..16], &inner).unwrap_or_default()),
+            };
+            for outer in 0..3 {
+                let mut msg = match outer {
+                    0 => wire::new_packet(tag, &body),
+                    _ => wire::partial_packet(tag, &body, &[9, 5, 0], 2).unwrap_or_default(),
+                };
+                if outer == 2 {
+                    msg.extend_from_slice(&wire::new_packet(21, &[1u8; 7]));
+                    msg.extend_from_slice(&wire::new_packet(10, b"PGP"));
+                }
+                v.push((format!("container {container} (0 SEIPDv1, 1 SEIPDv2, 2 GnuPG-OCB), inner {inner_kind} (0 fixed literal, 1 partial literal, 2 partial literal + padding + marker), outer {outer} (0 fixed, 1 partial, 2 partial + padding + marker)"), msg, sk[..16].to_vec()));
+            }
+        }
+    }
+    v
+}
+
+fn truncation_case(t: &mut Tape, rec: &mut Rec, bases: &[(String, Vec<u8>, Vec<u8>)], starts: &[u64]) -> CaseResult {
+    let idx = t.u64();
+    let bi = match starts.binary_search(&idx) {
+        Ok(i) => i,
+        Err(i) => i - 1,
+    };
+    let (what, msg, sk) = &bases[bi];
+    let cut = (idx - starts[bi]) as usize;
+    rec.label(format!("truncation-base-{bi}"));
+    rec.nontrivial((bi, cut));
+    rec.describe(|| format!("{what}, {} bytes, cut to {cut}", msg.len()));
+    let sub = expand(idx, 16);
+    let mut t2 = Tape::new(&sub);
+    rec.checkpoint("truncated-container:open");
+    open_message(rec, &msg[..cut], Some(sk), &[Kind::Ed25519V6], &mut t2);
     Ok(())
 }
 
@@ -861,6 +971,14 @@ pub fn run(ctx: &Ctx) {
     ctx.group_isolated("hostile-pkesk-plaintext", Source::Indexed { count: n_pkesk }, |t, rec| hostile_pkesk_case(t, rec, &kinds, li_classes));
     let n = ctx.tier.pick(10_000u64, 300_000);
     ctx.group_isolated("hostile-containers", Source::Random { n, tape_len: 300 }, hostile_container_case);
+    let tb = truncation_bases();
+    let mut starts = vec![];
+    let mut total = 0u64;
+    for b in &tb {
+        starts.push(total);
+        total += b.1.len() as u64 + 1;
+    }
+    ctx.group_isolated("truncated-partial-containers", Source::Indexed { count: total }, |t, rec| truncation_case(t, rec, &tb, &starts));
     let n = ctx.tier.pick(3000u64, 200_000);
     ctx.group_isolated("hostile-parameters", Source::Random { n, tape_len: 400 }, hostile_params_case);
     let fx = fixtures();
